@@ -83,10 +83,29 @@ def _rule_dying_alias(prog, chk, R):
                     if w and SX.is_node(SX.strip(w[0])) and SX.strip(w[0]).get('k') == 'member' and 'Object' in (SX.strip(SX.strip(w[0]).get('base')).get('t') or ''):
                         if any(y.get('k') == 'mcall' and SX.short(y.get('callee', '')) == 'use_count' for y in SX.walk(w[1] or {})):
                             flags.add(SX.strip(w[0])['name'])
-                ok_b = bool(counts) and bool(flags)
+                # … on every way out of the destructor activations, exceptional ones included (a destructor body that fails after it
+                # stored `this` leaves the alias in the scopes it abandons): the recording sits in the destructor of a local object
+                # declared before the activations run, or in a catch-all handler as well as on the normal path
+                unwind = False
+                for rn, rec in prog.facts.records.items():
+                    if '::' in rn or not (rec.get('file') or '').endswith('runtime_evaluator.cpp'):
+                        continue
+                    for mth in prog.methods_of(rn):
+                        if mth.kind == 'dtor' and mth.body and any(n_.get('k') == 'mcall' and SX.short(n_.get('callee', '')) == 'use_count' for n_ in SX.walk(mth.body)):
+                            insts = [v for v in SX.walk(f.body, into_lambdas=False) if v['k'] == 'var' and (v.get('type') or '').replace('const ', '').strip() == rn]
+                            unwind = unwind or bool(insts)
+                if not unwind:
+                    for t_ in SX.walk(f.body, into_lambdas=False):
+                        if t_['k'] == 'try':
+                            for h_ in t_.get('handlers', []):
+                                if not h_.get('type') or h_.get('type') == '...':
+                                    if any((lambda w_: w_ and SX.is_node(SX.strip(w_[0])) and SX.strip(w_[0]).get('k') == 'member' and SX.strip(w_[0]).get('name') in flags)(SX.write_target(n_))
+                                           for n_ in SX.walk(h_.get('body'))):
+                                        unwind = True
+                ok_b = bool(counts) and bool(flags) and unwind
             chk.ob('R12.11', f, a.get('ln', f.ln), ok_a and ok_b,
                    'the non-owning alias of the dying object is a named local whose use_count() is examined after the destructors and recorded in a flag of the object '
-                   '(named local: %s; examined and recorded: %s) — otherwise a destructor that stores `this` leaves a dangling reference' % (ok_a, ok_b), key='alias:%s' % f.short)
+                   '(named local: %s; examined and recorded on every exit, unwinding included: %s) — otherwise a destructor that stores `this` leaves a dangling reference' % (ok_a, ok_b), key='alias:%s' % f.short)
     chk.count('non-owning aliases of dying objects', n_alias, 1)
     # (c) deletes
     n_del = 0
@@ -444,9 +463,9 @@ def _deleter_tests(prog, R, flag):
     return False
 
 
-SLOT_EXCEPTIONS = {
-    ('runConstructorChain', 'fields'): 'default-constructor binding into an object created in this very `new`: the slot still holds its default value, which owns no object',
-}
+# (no exceptions: the one site that used to be excused here — default-constructor binding, "the slot still holds its default value" —
+#  was a genuine defect: field initialisers run before the binding.  Fixed in /repo; see known_findings.txt)
+SLOT_EXCEPTIONS = {}
 
 
 def _rule_slot_overwrite(prog, chk, R):
